@@ -744,7 +744,7 @@ class TapeRecorder(object):
                         if run_intercepted_when_missing:
                             # Run the original method when content was missing in recording
                             return func(*args, **kwargs)
-                        if value_when_missing:
+                        if value_when_missing is not None:
                             if callable(value_when_missing):
                                 return value_when_missing(*args, **kwargs)
                             return value_when_missing
